@@ -441,7 +441,7 @@ def _routing(col, rule="C08.R6"):
     sx = tctx(repo, "get_indices", "_View")
     want = {("sub", S.mcall(S.sattr("data"), "get_indices"), S.sattr("index")),
             ("sub", S.fcall(("attr", ("glob", "np"), "arange"), S.sattr("nrows")), S.sattr("index"))}
-    got = {r.value for r in sx.of_kind("return")}
+    got = {a for r in sx.of_kind("return") for a in S.alts(r.value)}
     col.add(rule, "_View.get_indices#composition", got == want, sx.loc(sx.fn), "nested views compose their index arrays back to absolute positions",
             str([S.show(g) for g in got]))
     sx = tctx(repo, "__getitem__", "_View")
